@@ -474,9 +474,19 @@ class HeapExec(NumExec):
         return NotImplemented
 
     def ev_IfExp(s, p, e):
+        # each branch is evaluated under its own condition (its safety obligations are guarded by it); a branch with an effect (a pop, a field write, a call that may
+        # raise) would have to happen on one side only: outside the subset
         c = s.truth(s.ev(p, e.test), e, p)
-        a, b = s.ev(p, e.body), s.ev(p, e.orelse)
-        return s.merge(c, a, b, e)
+        vals = []
+        for br, g in ((e.body, c), (e.orelse, z3.Not(c))):
+            q = p.fork(); q.pc.append(g)
+            nr, nw = len(s.raised), len(s.writes)
+            v = s.ev(q, br)
+            if (any(q.heap.get(k) is not p.heap.get(k) for k in set(q.heap) | set(p.heap)) or any(q.env.get(k) is not p.env.get(k) for k in set(q.env) | set(p.env))
+                    or len(s.raised) != nr or len(s.writes) != nw):
+                raise Unsupported(f"conditional expression with an effect in a branch at line {e.lineno}: {ast.unparse(e)[:80]}")
+            vals.append(v)
+        return s.merge(c, vals[0], vals[1], e)
 
     def ev_JoinedStr(s, p, e):
         """f-strings made of literals and string constants are evaluated; anything else is an opaque message (A-MSG)"""
@@ -1280,6 +1290,9 @@ class HeapExec(NumExec):
         # loop ordinal = syntactic position of the loop in the function (the same loop may be reached on several paths)
         loops = sorted([(n.lineno, n.col_offset) for n in ast.walk(fn) if isinstance(n, (ast.For, ast.While))])
         s.loop_index = {pos: i for i, pos in enumerate(loops)}
+        chg = getattr(s.src, "loop_shape_changed", {}).get(id(fn))
+        if chg and s.loops:
+            raise Unsupported(f"the loops of this function ({chg[1]}) are not the loops its sidecar invariants were written for ({chg[0]})")
         outs = []
         for q, sig in s.block([p], fn.body):
             if sig is None:
